@@ -27,11 +27,9 @@ fn gen_c13(_tier: &str, rng: &mut Rng, w: &mut dyn Write) {
         }
         for r2 in 0..13 {
             writeln!(w, "rank_cmp {} {}", r, r2).unwrap();
-            // C13 speaks of a <= b; reversed endpoints are covered where reachable from text (C09)
-            if r <= r2 {
-                writeln!(w, "rank_range {} {} 0", r, r2).unwrap();
-                writeln!(w, "rank_range {} {} 1", r, r2).unwrap();
-            }
+            // every ordered endpoint pair, reversed ones included (there the slice panics: `rank_range_total`)
+            writeln!(w, "rank_range {} {} 0", r, r2).unwrap();
+            writeln!(w, "rank_range {} {} 1", r, r2).unwrap();
         }
     }
     for s in 0..4 {
@@ -40,10 +38,8 @@ fn gen_c13(_tier: &str, rng: &mut Rng, w: &mut dyn Write) {
         }
         for s2 in 0..4 {
             writeln!(w, "suit_cmp {} {}", s, s2).unwrap();
-            if s <= s2 {
-                writeln!(w, "suit_range {} {} 0", s, s2).unwrap();
-                writeln!(w, "suit_range {} {} 1", s, s2).unwrap();
-            }
+            writeln!(w, "suit_range {} {} 0", s, s2).unwrap();
+            writeln!(w, "suit_range {} {} 1", s, s2).unwrap();
         }
     }
     writeln!(w, "rank_all").unwrap();
